@@ -735,8 +735,8 @@ def _window_silent(ref, est, s, e):
 
 
 def check_framewise(inp, mode):
-    """mode: 'values' (arity, shapes, fall-back, non-silent windows) | 'nan' (silent windows, all outputs but
-    images-isr) | 'nan_isr' (silent windows, isr of the images variant)."""
+    """mode: 'values' (arity, shapes, fall-back, non-silent windows) | 'nan' (silent windows, EVERY output) |
+    'nan_isr' (silent windows, isr of the images variant only: the witness of the repaired finding b910d54)."""
     ref, est = make_signals(inp)
     images = _is_images(inp)
     nf = sep.bss_eval_images if images else sep.bss_eval_sources
@@ -770,7 +770,7 @@ def check_framewise(inp, mode):
             s, e = k * hop, k * hop + window
             if _window_silent(ref, est, s, e):
                 if mode == "nan":
-                    cols = [o for o in range(nout) if not (images and o == 1)]
+                    cols = list(range(nout))
                 elif mode == "nan_isr":
                     cols = [1] if images else []
                 else:
@@ -807,7 +807,8 @@ def check_arity_empty(inp):
 
 def check_singular(inp):
     """A non-silent input whose delayed references are exactly linearly dependent (one stereo sample with
-    collinear channels): np.linalg.solve raises LinAlgError and the code documents a lstsq fall-back."""
+    collinear channels): np.linalg.solve raises LinAlgError and the code falls back to lstsq (the except clause
+    was unreachable under numpy >= 2 before `fix:` da26975)."""
     n, flen = inp["n"], inp["flen"]
     ref = np.zeros((1, n, 2))
     ref[0, 0] = [1.0, 2.0]
@@ -822,19 +823,14 @@ def check_singular(inp):
     return None if len(out) == nout else "%d arrays returned" % len(out)
 
 
-def _is_numpy2_linalg_defect(e):
-    return isinstance(e, AttributeError) and "numpy.linalg" in str(e) and "'linalg'" in str(e)
-
-
 def checker(inp):
-    """Any exception of the real code on a generated (valid) input is a failure, except the broken
-    `except np.linalg.linalg.LinAlgError` clause (numpy >= 2) on exactly singular windows, which is tracked by
-    the dedicated check "singular" and its known-finding entry."""
+    """Any exception of the real code on a generated (valid) input is a failure of the property."""
+    import warnings
     try:
-        return _checker(inp)
+        with warnings.catch_warnings():
+            warnings.simplefilter("ignore")   # deprecation / lstsq-rcond warnings are not observations
+            return _checker(inp)
     except Exception as e:  # noqa: BLE001
-        if inp.get("check") != "singular" and _is_numpy2_linalg_defect(e):
-            return None
         return "the real code raised %s: %s" % (type(e).__name__, str(e)[:200])
 
 
@@ -948,7 +944,7 @@ def _gen_framewise(fnname):
                 if e - s < r["n"]:
                     sil.append([rng.choice(["ref", "est"]), rng.randrange(nsrc), s, e])
             r["silent"] = sil
-            r["check"] = rng.choice(["fw_values", "fw_values", "fw_silent_nan"] + (["fw_silent_nan_isr"] if images else []))
+            r["check"] = rng.choice(["fw_values", "fw_values", "fw_silent_nan", "fw_silent_nan"])
             yield r
         if shard == 0:
             for sh in ([0], [0, 0], [2, 0], [0, 7]) + (([2, 0, 2],) if images else ()):
